@@ -94,6 +94,8 @@ type statsT struct {
 var st = &statsT{Labels: map[string]int64{}, Nontrivial: map[uint64]bool{}, Known: map[string]int64{},
 	KnownText: map[string]string{}, Requested: map[string]int{}, Passed: map[string]int{}}
 
+func evals() int64 { st.mu.Lock(); defer st.mu.Unlock(); return st.Evals }
+
 // Eval counts one executed case.
 func Eval() { st.mu.Lock(); st.Evals++; st.mu.Unlock() }
 
@@ -327,9 +329,13 @@ func Run[C any](t *testing.T, p Prop[C], n int) {
 			if json.Unmarshal(b, &r) != nil || r.Test != p.Name {
 				continue
 			}
-			Eval()
 			Label("corpus")
-			if f := replayFn(r.Case); f != nil {
+			before := evals()
+			f := replayFn(r.Case)
+			if evals() == before {
+				Eval()
+			}
+			if f != nil {
 				if IsKnown(f.Key) {
 					continue
 				}
@@ -356,8 +362,12 @@ func Run[C any](t *testing.T, p Prop[C], n int) {
 	firstKey := ""
 	rapid.Check(t, func(rt *rapid.T) {
 		c := p.Gen(rt)
-		Eval()
-		if f := p.Check(c); f != nil {
+		before := evals()
+		f := p.Check(c)
+		if evals() == before {
+			Eval() // a check that does not count its own executions counts as one evaluation
+		}
+		if f != nil {
 			if IsKnown(f.Key) {
 				passed++
 				return
